@@ -100,6 +100,11 @@ type Check struct {
 	Env func(p Params) []string
 	// MinNonTrivial: fewer distinct non-trivial cases than this is a machinery failure.
 	MinNonTrivial int
+	// Twins are hidden checks (registered under their own id) whose workers run as part of this
+	// check, typically from the -race binary; their observations are merged into this check's.
+	Twins []string
+	// Hidden checks are not listed (twins).
+	Hidden bool
 }
 
 var registry = map[string]*Check{}
@@ -115,7 +120,10 @@ func Lookup(id string) *Check { return registry[id] }
 
 func IDs() []string {
 	var ids []string
-	for k := range registry {
+	for k, c := range registry {
+		if c.Hidden {
+			continue
+		}
 		ids = append(ids, k)
 	}
 	sort.Strings(ids)
@@ -490,20 +498,14 @@ func raceSignatures(logs []string) map[string]string {
 	return out
 }
 
-// Orchestrate runs a whole check and returns the process exit code.
-func Orchestrate(id string, p Params) int {
-	ck := Lookup(id)
-	if ck == nil {
-		fmt.Fprintln(os.Stderr, "unknown property", id)
-		return 2
-	}
-	start := time.Now()
-	work := filepath.Join(VerifDir, ".work", id)
-	os.RemoveAll(work)
+// runWorkers runs all workers of one check (or twin) and merges their observations.
+func runWorkers(ck *Check, p Params, work string) (merged *Result, harnessFail bool, nWitness, total, nw int, race bool) {
+	id := ck.ID
 	os.MkdirAll(work, 0o755)
 	wits := Witnesses(id)
-	total := len(wits) + planCapped(ck, p)
-	nw := runtime.NumCPU()
+	nWitness = len(wits)
+	total = len(wits) + planCapped(ck, p)
+	nw = runtime.NumCPU()
 	if ck.Workers != nil {
 		if v := ck.Workers(p); v > 0 {
 			nw = v
@@ -521,21 +523,20 @@ func Orchestrate(id string, p Params) int {
 		nw = 1
 	}
 	bin := self()
-	race := ck.Race != nil && ck.Race(p)
+	race = ck.Race != nil && ck.Race(p)
 	if race {
 		bin = filepath.Join(filepath.Dir(bin), "vcheck-race")
 		if _, err := os.Stat(bin); err != nil {
 			fmt.Fprintln(os.Stderr, "race binary missing:", bin)
-			return 2
+			return newResult(), true, nWitness, total, nw, race
 		}
 	}
 
-	merged := newResult()
+	merged = newResult()
 	var mu sync.Mutex
 	var wg sync.WaitGroup
-	harnessFail := false
 	var raceLogs []string
-
+	harnessFail = false
 	runOne := func(shard, from, only int, out string) (int, string) {
 		args := []string{"-worker", "-prop", id, "-tier", p.Tier, "-seed", strconv.FormatInt(p.Seed, 10),
 			"-shard", strconv.Itoa(shard), "-of", strconv.Itoa(nw), "-from", strconv.Itoa(from), "-only", strconv.Itoa(only), "-out", out}
@@ -545,7 +546,7 @@ func Orchestrate(id string, p Params) int {
 		cmd.Stdout, cmd.Stderr = outf, errf
 		cmd.Env = append(os.Environ(), "VERIF_CHILD=1")
 		if race {
-			cmd.Env = append(cmd.Env, "GORACE=halt_on_error=0 log_path="+out+".race")
+			cmd.Env = append(cmd.Env, "GORACE=halt_on_error=0 exitcode=0 log_path="+out+".race")
 		}
 		if ck.Env != nil {
 			cmd.Env = append(cmd.Env, ck.Env(p)...)
@@ -683,18 +684,65 @@ func Orchestrate(id string, p Params) int {
 		}(k)
 	}
 	wg.Wait()
-	if harnessFail {
-		fmt.Println("HARNESS-FAILURE property=" + id)
-		return 2
-	}
 	if race {
 		for sig, blk := range raceSignatures(raceLogs) {
 			merged.Violations = append(merged.Violations, Violation{Prop: id, Sig: sig, What: "Go race detector report:\n" + blk, Tier: p.Tier, Seed: p.Seed, Idx: -1})
 		}
 		merged.Counters["race_log_files"] += int64(len(raceLogs))
+		merged.Counters["race_reports_distinct"] += int64(len(raceSignatures(raceLogs)))
 	}
 	if ck.Finish != nil {
 		merged.Violations = append(merged.Violations, ck.Finish(p, merged)...)
+	}
+	return merged, harnessFail, nWitness, total, nw, race
+}
+
+// Orchestrate runs a whole check and returns the process exit code.
+func Orchestrate(id string, p Params) int {
+	ck := Lookup(id)
+	if ck == nil {
+		fmt.Fprintln(os.Stderr, "unknown property", id)
+		return 2
+	}
+	start := time.Now()
+	work := filepath.Join(VerifDir, ".work", id)
+	os.RemoveAll(work)
+	merged, harnessFail, nWit, total, nw, race := runWorkers(ck, p, work)
+	wits := Witnesses(id)
+	_ = nWit
+	twinInfo := map[string]interface{}{}
+	for _, tid := range ck.Twins {
+		tck := Lookup(tid)
+		if tck == nil {
+			fmt.Fprintln(os.Stderr, "unknown twin", tid)
+			return 2
+		}
+		tm, tfail, _, ttotal, tnw, trace := runWorkers(tck, p, filepath.Join(work, "twin-"+tid))
+		if tfail {
+			harnessFail = true
+		}
+		for i := range tm.Violations {
+			tm.Violations[i].Prop = id
+			tm.Violations[i].Monitor = "twin:" + tid
+		}
+		merged.Violations = append(merged.Violations, tm.Violations...)
+		merged.Evaluations += tm.Evaluations
+		for h := range tm.hashSet {
+			merged.hashSet[h] = struct{}{}
+		}
+		for k, v := range tm.Inconclusive {
+			merged.Inconclusive["twin "+tid+": "+k] += v
+		}
+		for _, s := range tm.Samples {
+			if len(merged.Samples) < 8 {
+				merged.Samples = append(merged.Samples, s)
+			}
+		}
+		twinInfo[tid] = map[string]interface{}{"cases": ttotal, "evaluations": tm.Evaluations, "workers": tnw, "race_detector": trace, "counters": tm.Counters, "max_counters": tm.MaxCounters, "tables": summarizeCover(tm.Cover), "rule": tck.Rule, "distinct_nontrivial": len(tm.hashSet)}
+	}
+	if harnessFail {
+		fmt.Println("HARNESS-FAILURE property=" + id)
+		return 2
 	}
 
 	// classify violations
@@ -764,6 +812,7 @@ func Orchestrate(id string, p Params) int {
 		"known_findings_not_observed": knownStale,
 		"unknown_violation_signatures": keys(seenSig),
 		"race_detector":       race,
+		"twins":               twinInfo,
 	}
 	if len(merged.Logs) > 0 {
 		if len(merged.Logs) > 40 {
